@@ -89,7 +89,7 @@ fn put_state(sc: &mut ControlChange14BitMessageScanner, ch: u8, st: u64) {
 /// `variant` (derived from `others`): how the prior state is followed up before the encoding is fed:
 /// 0 nothing, 1 a reset and the same state again, 2 a reset only (the scanner must be like new),
 /// 3 a lone LSB of the message's own controller, 4 a lone LSB of another controller,
-/// 5 a Control Change outside 0-63, 6 reset + lone LSB
+/// 5 a Control Change outside 0-63, 6 reset + lone LSB, 7 / 8 a complete NRPN / RPN number selection
 fn check_decode_after(st: u64, others: u64, ch: u8, n: u8, v: u16, carrier: u8) -> CheckResult {
     let mut sc = api(ControlChange14BitMessageScanner::new);
     // other channels in seed-chosen states
@@ -102,7 +102,7 @@ fn check_decode_after(st: u64, others: u64, ch: u8, n: u8, v: u16, carrier: u8) 
         }
     }
     put_state(&mut sc, ch, st);
-    let variant = if others == 0 { 0 } else { (others >> 8) % 7 };
+    let variant = if others == 0 { 0 } else { (others >> 8) % 9 };
     let x = (others >> 16) as u8 & 127;
     match variant {
         1 => {
@@ -122,6 +122,12 @@ fn check_decode_after(st: u64, others: u64, ch: u8, n: u8, v: u16, carrier: u8) 
         6 => {
             api(|| sc.reset());
             let _ = feed_cc14(&mut sc, 0, 0xB0 | ch, n + 32, x);
+        }
+        7 | 8 => {
+            // a complete (N)RPN number selection on the channel (it means nothing to this scanner)
+            let (cm, cl) = if variant == 7 { (99, 98) } else { (101, 100) };
+            let _ = feed_cc14(&mut sc, 0, 0xB0 | ch, cm, x);
+            let _ = feed_cc14(&mut sc, 0, 0xB0 | ch, cl, x ^ 1);
         }
         _ => {}
     }
@@ -206,7 +212,7 @@ pub fn run_c07(ctx: &Ctx) -> Report {
             if thorough {
                 "every one of the 4097 reachable states of the message's channel x all 32 x 16384 messages (channel = state index mod 16), other channels in seed-chosen states"
             } else {
-                "every message x 4 seed-chosen states of the message's channel (out of 4097), other channels in seed-chosen states; the state is followed by one of 7 seed-chosen follow-ups (nothing, reset + same state, reset only, lone LSB of the same / another controller, a controller outside 0-63, reset + lone LSB)"
+                "every message x 4 seed-chosen states of the message's channel (out of 4097), other channels in seed-chosen states; the state is followed by one of 9 seed-chosen follow-ups (nothing, reset + same state, reset only, lone LSB of the same / another controller, a controller outside 0-63, reset + lone LSB, a complete NRPN / RPN number selection)"
             },
             "non-trivial = prior state holds a different MSB controller or the same controller with a different value",
             thorough,
